@@ -168,18 +168,41 @@ func NewBinaryModel() *BinaryModel {
 func (m *BinaryModel) ResolveDependencies() {
 	m.Config = NewConfiguration(m.Options)
 	for _, packet := range m.Packets {
-		for _, field := range packet.Fields {
-			if of, ok := field.Attr.(*ObjectFieldAttribute); ok {
-				if of.RefPacket == nil {
-					if refPacket, exists := m.PacketsMap[of.PacketName]; exists {
-						of.RefPacket = refPacket
-					} else {
-						m.AddSyntaxError(&SyntaxError{
-							Line:   field.Line,
-							Column: field.Column,
-							Msg:    "Unknown packet type " + of.PacketName + " for field " + field.Name,
-						})
-					}
+		m.resolveFields(packet.Fields)
+	}
+}
+
+// resolveFields links object fields to their packets, descending into inline objects,
+// and reports references to packets that are not declared.
+func (m *BinaryModel) resolveFields(fields []*Field) {
+	for _, field := range fields {
+		switch attr := field.Attr.(type) {
+		case *ObjectFieldAttribute:
+			if attr.IsIner {
+				if attr.RefPacket != nil {
+					m.resolveFields(attr.RefPacket.Fields)
+				}
+				continue
+			}
+			if attr.RefPacket == nil {
+				if refPacket, exists := m.PacketsMap[attr.PacketName]; exists {
+					attr.RefPacket = refPacket
+				} else {
+					m.AddSyntaxError(&SyntaxError{
+						Line:   field.Line,
+						Column: field.Column,
+						Msg:    "Unknown packet type " + attr.PacketName + " for field " + field.Name,
+					})
+				}
+			}
+		case *MatchFieldAttribute:
+			for _, pair := range attr.MatchPairs {
+				if _, exists := m.PacketsMap[pair.Value]; !exists {
+					m.AddSyntaxError(&SyntaxError{
+						Line:   pair.Line,
+						Column: pair.Column,
+						Msg:    "Unknown packet type " + pair.Value + " for match field " + field.Name,
+					})
 				}
 			}
 		}
